@@ -27,9 +27,9 @@ T = "MetadorModel.C04."
 LEAN = dict(
     modules=["MetadorModel.Props.C04"],
     theorems=[T + n for n in [
-        "validate_ok_iff", "validate_perm", "tamper_rejected", "remove_inner_rejected", "remove_base_rejected",
+        "validate_ok_iff", "validate_perm", "rejected_iff", "tamper_rejected", "remove_inner_rejected", "remove_base_rejected",
         "foreign_rejected", "substitute_rejected", "fork_rejected", "dup_pid_rejected", "manifest_mismatch_rejected",
-        "remove_newest_accepted", "ub_parse_iff", "ub_damage_rejected"]],
+        "remove_newest_accepted", "ub_damage_rejected"]],
     drivers=["drv_chn"],
 )
 
